@@ -50,7 +50,20 @@ def _acc_nested(a, x):
     return a
 
 
+import enum
+
+
+class Color(enum.IntEnum):
+    R = 0
+    G = 1
+    B = 2
+
+
 ACCS = {
+    # ints beyond 2**53 (nanosecond timestamps, 64-bit ids): exact in an int, not in a double
+    'big_isum': (lambda a, x: a + x, lambda a, x: a + x, lambda: 2 ** 53 + 1, False),
+    # a seed that is an instance of an int SUBCLASS: the running value must stay a Color
+    'enum': (lambda a, x: Color((a.value + x) % 3), lambda a, x: Color((a.value + x) % 3), lambda: Color.G, False),
     'isum': (lambda a, x: a + x, lambda a, x: a + x, lambda: 0, False),
     'fsum': (lambda a, x: a + x * 0.5, lambda a, x: a + x * 0.5, lambda: 0.0, False),
     'or': (lambda a, x: bool(a or x > 2), lambda a, x: bool(a or x > 2), lambda: False, False),
@@ -64,6 +77,7 @@ ACCS = {
     'nested': (_acc_nested, lambda a, x: [a[0] + [x], a[1] + 1], lambda: [[], 0], True),
 }
 TERMS = {
+    'big_isum': lambda a: a - 1, 'enum': lambda a: a.name,
     'isum': lambda a: a * 10 + 1, 'fsum': lambda a: a + 0.25, 'or': lambda a: not a, 'minmax': lambda a: (a[1], a[0]),
     'maybe_none': lambda a: ['T'] if a is None else a + ['T'],
     'none_min': lambda a: -1 if a is None else a + 100, 'append': lambda a: a + ['T'], 'dict': lambda a: dict(list(a.items()) + [('T', 1)]),
